@@ -34,7 +34,7 @@ class Ctx:
         self.mod = self.w.mod
         self.seen = set()
         self.state_fields = self._state_fields()
-        self.map_xml = NameMap(self.mod.classes["StateXMLNode"].methods["_map_to_xml_prop"], "StateXMLNode._map_to_xml_prop")
+        self.map_xml = NameMap(self.mod.classes["StateXMLNode"].methods["_map_to_xml_prop"], "StateXMLNode._map_to_xml_prop", repo, self.mod.classes["StateXMLNode"], self.mod)
 
     def _state_fields(self):
         st = self.repo.cls(ST, "State")
@@ -319,7 +319,7 @@ def run(repo, res, tier):
     match(root, None, relem[4], "commonRoad")
     # the attribute-name mapping of the writer inverts the reader's on every schema state element
     rmod = repo.mod("commonroad/common/reader/file_reader_xml.py")
-    r_inv = NameMap(rmod.classes["StateFactory"].methods["_map_to_prop"], "StateFactory._map_to_prop")
+    r_inv = NameMap(rmod.classes["StateFactory"].methods["_map_to_prop"], "StateFactory._map_to_prop", repo, rmod.classes["StateFactory"], rmod)
     state_types = [t for t in ("state", "initialState", "initialStateExact", "goalState") if t in xsd.types]
     names = sorted({c[0] for t in state_types for c in xsd.resolve_children(xsd.types[t])})
     for n in names:
